@@ -770,6 +770,8 @@ class World:
             elif k == "types":
                 out[k] = {n: {"int": int, "float": float, "str": str, "bool": bool}[t]
                           for n, t in v.items()}
+            elif k in ("parse_float", "parse_int"):
+                out[k] = {"str": str, "float": float}[v]       # json.load keyword arguments
             else:
                 out[k] = v
         return out
@@ -1434,6 +1436,10 @@ class Gen:
             keys = list(dict.fromkeys(k for f in doc["features"] for k in f["properties"]))
             if keys and r.random() < 0.8:
                 lit["columns"] = r.sample(keys, r.randint(1, min(3, len(keys))))
+            if not restrict and r.random() < 0.3:
+                lit["parse_float"] = "str"
+        if fmt == "lod_json" and not restrict and r.random() < 0.3:
+            lit[r.choice(["parse_float", "parse_int"])] = r.choice(["str", "float"])
         return lit
 
     def g_routes(self):
